@@ -606,6 +606,14 @@ func resolveDescendant(c xnode, path []xml.Name) string {
 // that leaf exists at all (an existing leaf may have the empty string as its
 // value).
 func lookupDescendant(c xnode, path []xml.Name) (string, bool) {
+	return lookupDescendantIn(c, c.schema(), path)
+}
+
+// lookupDescendantIn follows path from the data node c, whose position in the
+// schema is sn.  The path is a schema node identifier: it names the choices
+// and cases on the way, which have no data node of their own (sn is then a
+// choice or case below the schema node of c).
+func lookupDescendantIn(c xnode, sn Node, path []xml.Name) (string, bool) {
 
 	if len(path) == 0 {
 		return "", false
@@ -615,15 +623,20 @@ func lookupDescendant(c xnode, path []xml.Name) (string, bool) {
 		if ch.YangDataName() != hd.Local {
 			continue
 		}
-		csn := c.schema().Child(ch.YangDataName())
+		csn := sn.Child(ch.YangDataName())
 		switch csn.(type) {
 		case Container:
-			return lookupDescendant(ch, tl)
+			return lookupDescendantIn(ch, csn, tl)
 		case Leaf:
 			// Compiler enforces non-empty leaf reference
 			return ch.YangDataValuesNoSorting()[0], true
 		default:
 			return "", false
+		}
+	}
+	for _, cc := range sn.Choices() {
+		if cc.Name() == hd.Local {
+			return lookupDescendantIn(c, cc, tl)
 		}
 	}
 	return "", false
